@@ -1,0 +1,37 @@
+//
+// verif_hooks.rs
+//
+// Observation hooks for the verification harness in /verif. This module only exists when the
+// crate is compiled with `--cfg packing_verif`; a normal build contains none of it.
+//
+// The harness installs a callback which is told about every read and write of a `SharedValue`,
+// identified by a per-value id. With no callback installed the hooks do nothing.
+
+use std::sync::atomic::{AtomicU64, AtomicUsize, Ordering};
+
+static CALLBACK: AtomicUsize = AtomicUsize::new(0);
+static NEXT_ID: AtomicU64 = AtomicU64::new(1);
+
+/// Install the callback `f(id, is_write)`.
+pub fn install(f: fn(u64, bool)) {
+    CALLBACK.store(f as usize, Ordering::SeqCst);
+}
+
+/// Remove the callback.
+pub fn uninstall() {
+    CALLBACK.store(0, Ordering::SeqCst);
+}
+
+/// A fresh identity for a newly created value.
+pub fn next_id() -> u64 {
+    NEXT_ID.fetch_add(1, Ordering::Relaxed)
+}
+
+#[inline]
+pub fn access(id: u64, write: bool) {
+    let raw = CALLBACK.load(Ordering::Relaxed);
+    if raw != 0 {
+        let f: fn(u64, bool) = unsafe { std::mem::transmute::<usize, fn(u64, bool)>(raw) };
+        f(id, write);
+    }
+}
